@@ -1004,11 +1004,13 @@ func (s *evmSim) reobserve(st simkit.Step, obsvReqC chan *gossipv1.ObservationRe
 		chain = uint32(vaa.ChainIDEthereum)
 	}
 	var hash []byte
+	var raceTx *evmTx
 	if st.B%5 == 4 || n == 0 {
 		hash = crypto.Keccak256([]byte("nonexistent"), []byte{byte(st.A)})
 		s.stats.Fault("reobserve-unknown-tx")
 	} else {
-		hash = s.txs[int(st.A)%n].hash.Bytes()
+		raceTx = s.txs[int(st.A)%n]
+		hash = raceTx.hash.Bytes()
 	}
 	s.reobsPhase = true
 	s.headServedInPhase = 0
@@ -1024,6 +1026,12 @@ func (s *evmSim) reobserve(st simkit.Step, obsvReqC chan *gossipv1.ObservationRe
 			break
 		}
 		s.release(p)
+		if k == 0 && st.C == 1 && raceTx != nil {
+			// the chain changes between the first and the second RPC call of this re-observation:
+			// the transaction's block is replaced and the head moves far ahead
+			synctest.Wait()
+			s.raceReorg(raceTx)
+		}
 	}
 	synctest.Wait()
 	// a request the watcher did not pick up now (it is restarting) is withdrawn, otherwise it would
@@ -1038,6 +1046,24 @@ func (s *evmSim) reobserve(st simkit.Step, obsvReqC chan *gossipv1.ObservationRe
 	s.mu.Unlock()
 	s.stats.Probe("reobservation-requests")
 	_ = hex.EncodeToString
+}
+
+func (s *evmSim) raceReorg(tx *evmTx) {
+	s.mu.Lock()
+	if tx.block == nil || !s.canonical(tx.block) || tx.block.number <= s.finalized {
+		s.mu.Unlock()
+		return
+	}
+	depth := int(s.head() - tx.block.number + 1)
+	s.mu.Unlock()
+	s.reorg(depth, 0)
+	s.mu.Lock()
+	s.mine(70)
+	if s.useFinal {
+		s.finalized = s.head()
+	}
+	s.stats.Fault("reorg-between-two-calls-of-a-reobservation")
+	s.mu.Unlock()
 }
 
 // settleAndCheck: faults stop; the head moves on - including one jump of more than the
@@ -1176,7 +1202,7 @@ func (evmHarness) Gen(seed uint64, prop, tier string) *simkit.Program {
 		case 3:
 			add("reorg", int64(r.Range(1, 4)), int64(r.Intn(4)), 0)
 		case 4:
-			add("reobs", int64(r.Intn(16)), int64(r.Intn(5)), 0)
+			add("reobs", int64(r.Intn(16)), int64(r.Intn(5)), int64(r.Pick(3, 1)))
 		case 5:
 			add("fault", int64(r.Pick(2, 2, 4, 1, 1)), int64(r.Intn(3)), int64(r.Intn(3)))
 		case 6:
